@@ -461,6 +461,7 @@ def compare(kind: str, left: Dict[str, dict], right: Dict[str, dict], ev: int) -
 
 # per worker process: results that depend only on (tree, saved file) / (tree, server-side configuration) are shared by all
 # items the worker executes (the values are exactly what a recomputation would give; only time is saved)
+_DEPTH1: Dict[tuple, Dict[Any, Any]] = {}
 _FRESH: Dict[tuple, Any] = {}
 _RESTART: Dict[tuple, Dict[tuple, str]] = {}
 
@@ -735,13 +736,23 @@ def run_item(item) -> common.Result:
     first = item["first"]
     lines = ex.lines
     # depth-1 states of all first requests: this sub-tree is expanded only if no earlier sub-tree starts in the same state
-    k0 = ex.canon(ex.build(()))
+    # (keys are pure functions of (tree, protocols, request); a worker remembers them across the items of one group)
+    gk = (ex.tkey, item["dv"], item["cv"], tuple(lines))
+    memo = _DEPTH1.setdefault(gk, {})
+    if len(_DEPTH1) > 64:
+        _DEPTH1.clear()
+        memo = _DEPTH1.setdefault(gk, {})
+    if "k0" not in memo:
+        memo["k0"] = ex.canon(ex.build(()))
+    k0 = memo["k0"]
     keys: List[Any] = []
     for i in range(first + 1):
-        try:
-            keys.append(ex.canon(ex.build((lines[i],))))
-        except ServerDied:
-            keys.append(("died", i))
+        if i not in memo:
+            try:
+                memo[i] = ex.canon(ex.build((lines[i],)))
+            except ServerDied:
+                memo[i] = ("died", i)
+        keys.append(memo[i])
     mine = keys[first]
     expand = mine != k0 and mine not in keys[:first] and not (isinstance(mine, tuple))
     prefix = (lines[first],)
@@ -750,9 +761,6 @@ def run_item(item) -> common.Result:
         # the initial state itself is checked once per (tree, dv, cv)
         ex.check((), ex.build(()))
         r.states += 1
-
-    def build(h):
-        return ex.build(prefix + h)
 
     def enabled(h, st):
         return [(ln,) for ln in lines] if expand else []
@@ -776,17 +784,16 @@ def run_item(item) -> common.Result:
         return r
     r.states += stats.states if expand else 0
     r.transitions += stats.transitions + 1
-    if True:
-        r.sample = {
-            "tree": item["tree"],
-            "kconfig": item["files"]["Kconfig"],
-            "server_default_version": item["dv"],
-            "client_version": item["cv"],
-            "alphabet": lines,
-            "first_request": lines[first],
-            "states_in_subtree": stats.states,
-            "transitions_in_subtree": stats.transitions,
-        }
+    r.sample = {
+        "tree": item["tree"],
+        "kconfig": item["files"]["Kconfig"],
+        "server_default_version": item["dv"],
+        "client_version": item["cv"],
+        "alphabet": lines,
+        "first_request": lines[first],
+        "states_in_subtree": stats.states,
+        "transitions_in_subtree": stats.transitions,
+    }
     return r
 
 
